@@ -85,11 +85,12 @@ var perPropertyAssumptions = map[string][]string{}
 func regC14(add addFn, p pFn) {
 	add(&Instance{Property: "C14", Name: "lookup-e2c2", Entry: "keytab.VH_C14_Lookup", Params: p("entries", 2, "comps", 2, "slen", 1, "klen", 1, "qlen", 0), Reach: []string{"found", "notfound"},
 		Bound: "0..2 entries, 0..2 components per entry and query, strings of 1 symbolic byte, keys 0..1 bytes, kvno full 32-bit, etype full int32, timestamps full signed 32-bit"})
-	add(&Instance{Property: "C14", Name: "lookup-e3c2", Entry: "keytab.VH_C14_Lookup", Params: p("entries", 3, "comps", 2, "slen", 2, "klen", 2, "qlen", 0), Tier: "thorough", Reach: []string{"found", "notfound"}, TimeoutS: 1500,
-		Bound: "0..3 entries, 0..2 components, strings of 2 symbolic bytes, keys 0..2 bytes"})
+	// (3 entries with 0..2 components and 2-byte strings did not finish within 5 000 000 paths: 3 entries are registered with 0..1 components)
+	add(&Instance{Property: "C14", Name: "lookup-e3c1", Entry: "keytab.VH_C14_Lookup", Params: p("entries", 3, "comps", 1, "slen", 1, "klen", 1, "qlen", 0), Tier: "thorough", Reach: []string{"found", "notfound"}, TimeoutS: 6000, MaxPaths: 1500000,
+		Bound: "0..3 entries, 0..1 components, strings of 1 symbolic byte, keys 0..1 bytes"})
 	add(&Instance{Property: "C14", Name: "lookup-varlen", Entry: "keytab.VH_C14_Lookup", Params: p("entries", 1, "comps", 2, "slen", 1, "klen", 1, "qlen", 3), Reach: []string{"found", "notfound"},
 		Bound: "0..1 entries, 0..2 components; entry component strings of every length 0..1, query component strings of every length 0..3 (empty components, separators inside components)"})
-	add(&Instance{Property: "C14", Name: "lookup-varlen-e2", Entry: "keytab.VH_C14_Lookup", Params: p("entries", 2, "comps", 2, "slen", 2, "klen", 1, "qlen", 5), Tier: "thorough", Reach: []string{"found", "notfound"}, TimeoutS: 1500,
+	add(&Instance{Property: "C14", Name: "lookup-varlen-e2", Entry: "keytab.VH_C14_Lookup", Params: p("entries", 2, "comps", 2, "slen", 2, "klen", 1, "qlen", 5), Tier: "thorough", Reach: []string{"found", "notfound"}, TimeoutS: 6000, MaxPaths: 1200000,
 		Bound: "0..2 entries, 0..2 components; entry strings 0..2 bytes, query strings 0..5 bytes"})
 	for _, v := range []int{1, 2} {
 		add(&Instance{Property: "C14", Name: "roundtrip-v" + itoa(v), Entry: "keytab.VH_C14_RoundTrip", Params: p("version", v, "entries", 2, "comps", 2, "slen", 1, "klen", 2), Reach: []string{"compared"},
@@ -335,7 +336,7 @@ func regC08(add addFn, p pFn) {
 	}
 	rtkMerge := []string{"github.com/jcmturner/gokrb5/v8/crypto/rfc3961.stretch56Bits", "github.com/jcmturner/gokrb5/v8/crypto/rfc3961.calcEvenParity"}
 	add(&Instance{Property: "C08", Name: "des3-group", Entry: "crypto/rfc3961.VH_C08_DES3Group", Merge: rtkMerge, Reach: []string{"done"}, Bound: "ALL 2^56 seeds of one DES key group (parity expansion, 16 weak/semi-weak corrections)"})
-	add(&Instance{Property: "C08", Name: "des3-random-to-key", Entry: "crypto/rfc3961.VH_C08_DES3RandomToKey", Merge: rtkMerge, Tier: "thorough", Reach: []string{"done"}, TimeoutS: 6000, SolverMs: 600000, Bound: "ALL 2^168 seeds"})
+	// (the whole 168-bit DES3RandomToKey as one merged query did not finish in 25 minutes: not registered; the per-group lemma above covers all 2^56 seeds of a group and the three groups are independent)
 	for _, mn := range [][2]int{{5, 64}, {5, 128}, {8, 64}, {8, 128}, {1, 64}, {16, 128}, {3, 168}, {13, 128}, {9, 168}} {
 		add(&Instance{Property: "C08", Name: "nfold-m" + itoa(mn[0]) + "-n" + itoa(mn[1]), Entry: "crypto/rfc3961.VH_C08_NfoldStructure", Params: p("mlen", mn[0], "nbits", mn[1]), Stubs: []string{"ocadduf"}, Logic: "QF_UFBV", Reach: []string{"done"},
 			Bound: "every input of mlen bytes folded to nbits (5 bytes = key usage constants, 8 = 'kerberos'); addition summarised by one symbol on both sides (its equality with end-around-carry addition is ones-add-*)"})
@@ -398,8 +399,8 @@ func regC15(add addFn, p pFn) {
 			Bound: "no credentials, v4 header without fields"})
 		add(&Instance{Property: "C15", Name: "writer-v" + itoa(v) + "-conf", Entry: "credentials.VH_C15_IndependentWriter", Params: p("version", v, "creds", 2, "comps", 1, "slen", 1, "klen", 1, "addrs", 0, "tlen", 1, "hdr", 1, "conf", 1), Reach: []string{"parsed", "done"},
 			Bound: "2 credentials, the first a X-CACHECONF configuration entry"})
-		add(&Instance{Property: "C15", Name: "writer-v" + itoa(v) + "-c2", Entry: "credentials.VH_C15_IndependentWriter", Params: p("version", v, "creds", 2, "comps", 2, "slen", 2, "klen", 4, "addrs", 2, "tlen", 4, "hdr", 2, "conf", 2), Tier: "thorough", Reach: []string{"parsed", "done"}, TimeoutS: 1500,
-			Bound: "2 credentials (second a configuration entry), 0..2 components, 2-byte strings, 4-byte keys, 0..2 addresses/authdata, v4 header with 2 fields"})
+		add(&Instance{Property: "C15", Name: "writer-v" + itoa(v) + "-c2", Entry: "credentials.VH_C15_IndependentWriter", Params: p("version", v, "creds", 2, "comps", 1, "slen", 2, "klen", 4, "addrs", 1, "tlen", 4, "hdr", 2, "conf", 2), Tier: "thorough", MaxPaths: 1500000, Reach: []string{"parsed", "done"}, TimeoutS: 6000,
+			Bound: "2 credentials (second a configuration entry), 0..1 components, 2-byte strings, 4-byte keys, 0..1 addresses/authdata, v4 header with 2 fields (0..2 components and addresses did not finish within 5 000 000 paths)"})
 	}
 }
 
